@@ -839,6 +839,46 @@ fn search_listen_time(obs: &[&str]) {
                 "reply_bytes_received_by_B": got.len(), "listen_result": format!("{:?}", r), "expected": "B is served before listen() returns Ok"}));
         }
     }
+    // (d) saturation: one worker, A in service, B queued behind it; A leaves, B is served and STAYS connected across more than the idle timeout: listen() must not give up
+    //     ("never while a connection is still being served"); it returns only after B has left
+    {
+        explored += 1;
+        let dir = std::env::temp_dir().join(format!("vx-replay-sat-{}", std::process::id()));
+        let _ = std::fs::create_dir_all(&dir);
+        let path = dir.join("sock");
+        let addr = format!("unix:{}", path.display());
+        let t = std::thread::spawn(move || {
+            let r = varlink::listen(service(), &addr, &varlink::ListenConfig { initial_worker_threads: 1, max_worker_threads: 1, idle_timeout: 1, stop_listening: None });
+            (r.map_err(|e| format!("{:?}", e.kind())), std::time::Instant::now())
+        });
+        std::thread::sleep(Duration::from_millis(200));
+        let a = UnixStream::connect(&path);
+        std::thread::sleep(Duration::from_millis(150));
+        let b = UnixStream::connect(&path);
+        let mut b_reply = Vec::new();
+        let mut t_b_closed = std::time::Instant::now();
+        if let Ok(mut b) = b {
+            let _ = b.write_all(&render(&alphabet()[0]));
+            std::thread::sleep(Duration::from_millis(150));
+            drop(a);
+            let _ = b.set_read_timeout(Some(Duration::from_millis(4000)));
+            let mut buf = [0u8; 4096];
+            if let Ok(n) = b.read(&mut buf) { b_reply.extend_from_slice(&buf[..n]); }
+            // B stays connected, idle, for 2.2 s (more than twice the idle timeout)
+            std::thread::sleep(Duration::from_millis(2200));
+            t_b_closed = std::time::Instant::now();
+            drop(b);
+        }
+        let (r, t_ret) = t.join().unwrap_or((Err("PANIC".into()), std::time::Instant::now()));
+        let _ = std::fs::remove_dir_all(&dir);
+        let early = t_ret < t_b_closed && t_b_closed.duration_since(t_ret).as_millis() > 300;
+        if (b_reply.is_empty() || early) && found.is_none() {
+            found = Some(json!({"workers": "initial = max = 1", "idle_timeout_s": 1, "history": "A connects; B connects and sends GetInfo (queued); A leaves; B is answered and stays connected for 2.2 s",
+                "reply_bytes_received_by_B": b_reply.len(), "listen_result": format!("{:?}", r),
+                "listen_returned_ms_before_B_left": if t_ret < t_b_closed { t_b_closed.duration_since(t_ret).as_millis() as u64 } else { 0 },
+                "expected": "listen() keeps running while B is connected and returns Timeout about 1 s after B left"}));
+        }
+    }
     // (c) idle timeout AND stop flag: the flag is set shortly before the idle deadline, nothing in service: listen() must return Ok(()) ("stops accepting shortly after the flag is set and
     //     returns successfully"), never the idle Timeout error well after the flag was set.  Timing based: several offsets, and a finding must show in TWO separate attempts.
     {
